@@ -425,6 +425,89 @@ fn address_phase_universe(ctx: &Ctx) {
     });
 }
 
+// ------------------------------------------------------------------ (D) decode after a malformed text
+
+/// Every text obtained from a base text by cutting one line of its [Difficulty], [TimingPoints] or [HitObjects] section
+/// after one of its delimiters and writing a token that cannot be parsed there (the line ends there, or only that token is
+/// replaced); either the rest of the file is kept or the file ends with the broken line.
+fn broken_texts(base: &str) -> Vec<String> {
+    let lines: Vec<&str> = base.lines().collect();
+    let mut out = Vec::new();
+    let mut section = "";
+    for (li, line) in lines.iter().enumerate() {
+        if line.starts_with('[') {
+            section = line;
+            continue;
+        }
+        if !matches!(section, "[Difficulty]" | "[TimingPoints]" | "[HitObjects]") || line.is_empty() {
+            continue;
+        }
+        for (pos, ch) in line.char_indices() {
+            if !matches!(ch, ',' | '|' | ':') {
+                continue;
+            }
+            let head = lines[..li].join("\n");
+            // the line ends after the unparsable token / only that one token is replaced
+            let next = line[pos + 1..].find([',', '|', ':']).map_or(line.len(), |n| pos + 1 + n);
+            for broken in [format!("{}x", &line[..=pos]), format!("{}x{}", &line[..=pos], &line[next..])] {
+                out.push(format!("{head}\n{broken}\n"));
+                out.push(format!("{head}\n{broken}\n{}\n", lines[li + 1..].join("\n")));
+            }
+        }
+    }
+    out.sort();
+    out.dedup();
+    out
+}
+
+fn decode_after_broken_universe(ctx: &Ctx, world: &World) {
+    // base texts: every pool text; the first one also with sliders of several segments appended (a Bezier with a second
+    // segment introduced by a letter, one with a doubled anchor and node sounds, a perfect curve)
+    let mut bases: Vec<String> = world.texts.clone();
+    bases.push(format!(
+        "{}100,100,20000,2,0,B|160:40|220:100|L|280:160|330:200,1,300\n100,100,21000,2,0,B|160:40|160:40|220:100|300:100,2,250,2|0|2,0:0|0:0|0:0,0:0:0:0:\n100,100,22000,6,0,P|150:50|200:100,1,120\n",
+        world.texts[0]
+    ));
+    let broken: Vec<String> = bases.iter().flat_map(|b| broken_texts(b)).collect();
+    let reference: Vec<String> = bases.iter().map(|t| format!("{:?}", Beatmap::from_bytes(t.as_bytes()).map_err(|e| e.to_string()))).collect();
+    ctx.extra("broken_texts", J::i(broken.len() as u64));
+    ctx.universe(&format!("decode-after-broken-text/{}texts", broken.len()), broken.len() as u64, |idx, l| {
+        let junk = &broken[idx as usize];
+        l.states(1);
+        l.nontrivial();
+        // a thread of its own: whatever a decode leaves behind on its thread is then attributed to this case
+        let verdict: Result<Option<String>, ()> = std::thread::scope(|s| {
+            s.spawn(|| {
+                let first = format!("{:?}", Beatmap::from_bytes(junk.as_bytes()).map_err(|e| e.to_string()));
+                for (bi, base) in bases.iter().enumerate() {
+                    let by_bytes = format!("{:?}", Beatmap::from_bytes(base.as_bytes()).map_err(|e| e.to_string()));
+                    let by_str = format!("{:?}", Beatmap::from_str(base).map_err(|e| e.to_string()));
+                    if by_bytes != reference[bi] || by_str != reference[bi] {
+                        return Some(format!("decoding well-formed text #{bi} after the broken text gives a different map than decoding it first\n after : {}\n alone : {}", if by_bytes != reference[bi] { by_bytes } else { by_str }, reference[bi]));
+                    }
+                }
+                let again = format!("{:?}", Beatmap::from_bytes(junk.as_bytes()).map_err(|e| e.to_string()));
+                (again != first).then(|| format!("decoding the broken text a second time on the same thread gives a different map\n first : {first}\n second: {again}"))
+            })
+            .join()
+            .map_err(|_| ())
+        });
+        l.checked(2 * bases.len() as u64 + 2);
+        if l.want_sample() {
+            let mut o = J::obj();
+            o.set("universe", J::s("decode-after-broken-text"));
+            o.set("index", J::i(idx));
+            o.set("broken_line", J::s(junk.lines().find(|x| x.ends_with('x') && x.contains([',', ':'])).unwrap_or("").to_owned()));
+            l.sample(o);
+        }
+        match verdict {
+            Err(()) => l.violation("panic", || format!("decoding panicked\nbroken text:\n{junk}")),
+            Ok(Some(msg)) => l.violation("decode_history_dependent", || format!("{msg}\nbroken text:\n{junk}")),
+            Ok(None) => {}
+        }
+    });
+}
+
 fn main() {
     // fresh-process table mode: `--table` prints "<op index> <digest>" for the op given by --op
     let args: Vec<String> = std::env::args().collect();
@@ -439,7 +522,7 @@ fn main() {
     }
 
     let ctx = Ctx::from_env_caps("C01", 55, 1500);
-    ctx.rule("universe 'bpm-hash-order': every timing set of <= 4 uninherited lines over 4 beat lengths (one rounding onto another) x gap patterns x 3 tail lengths; all k! iteration orders of the k distinct beat lengths through the seam, plus two calls under the hash map's own order; bpm() must be bit-identical. universe 'address-phase': difficulty / strains / performance / gradual on 3 long synthetic maps (600 sliders, 900 and 1000 objects) and the 4 fixtures, all reachable modes, 2 settings, under all 8 placement phases {0,8,..,56} modulo 64 of every heap buffer >= 64 bytes (helper binary with a phase-shifting global allocator): digests must equal those of phase 0. universe 'histories': every history (repetitions allowed) of depth <= 3 over the op pool (decode, bpm, convert x 3 entry points, difficulty, strains, performance, gradual difficulty / performance walks for 4 settings incl. Random with and without seed, mania under Invert / HoldOff / both on a map with chords, lock-step walks of two calculators, builder reuse) on 6 maps; oracle = each op's result digest equals the digest the same op yields as the only op of a fresh process (two fresh processes per op must agree with each other), maps passed by reference unchanged; non-trivial = more than one distinct beat length / history of length >= 2");
+    ctx.rule("universe 'bpm-hash-order': every timing set of <= 4 uninherited lines over 4 beat lengths (one rounding onto another) x gap patterns x 3 tail lengths; all k! iteration orders of the k distinct beat lengths through the seam, plus two calls under the hash map's own order; bpm() must be bit-identical. universe 'address-phase': difficulty / strains / performance / gradual on 3 long synthetic maps (600 sliders, 900 and 1000 objects) and the 4 fixtures, all reachable modes, 2 settings, under all 8 placement phases {0,8,..,56} modulo 64 of every heap buffer >= 64 bytes (helper binary with a phase-shifting global allocator): digests must equal those of phase 0. universe 'decode-after-broken-text': every text obtained from the 6 pool texts (and the first with three multi-segment sliders appended) by cutting one line of [Difficulty] / [TimingPoints] / [HitObjects] after any one of its delimiters and putting an unparsable token there (dropping the rest of the line, or replacing only that token), with and without the rest of the file; on a thread of its own: decode it, then every well-formed text via bytes and str (must equal the first-decode reference), then the broken text again (must equal its first decode). universe 'histories': every history (repetitions allowed) of depth <= 3 over the op pool (decode, bpm, convert x 3 entry points, difficulty, strains, performance, gradual difficulty / performance walks for 4 settings incl. Random with and without seed, mania under Invert / HoldOff / both on a map with chords, lock-step walks of two calculators, builder reuse) on 6 maps; oracle = each op's result digest equals the digest the same op yields as the only op of a fresh process (two fresh processes per op must agree with each other), maps passed by reference unchanged; non-trivial = more than one distinct beat length / history of length >= 2");
     ctx.assume("the fresh-process reference table is produced by this same checker binary started once per op and repetition");
 
     timing_universe(&ctx);
@@ -447,6 +530,7 @@ fn main() {
 
     let rich = !ctx.quick();
     let world = World::new();
+    decode_after_broken_universe(&ctx, &world);
     let ops = all_ops(&world.specs, rich);
     // reference table from fresh processes (2 per op)
     let exe = std::env::current_exe().expect("exe");
